@@ -102,6 +102,10 @@ type replayFile struct {
 	SeedOnly  bool            `json:"seed_only,omitempty"`
 	Repo      string          `json:"repo_state,omitempty"`
 	Original  json.RawMessage `json:"original_tape,omitempty"`
+	// see props.ReplayFile
+	WorkerFrom   int64   `json:"worker_from"`
+	WorkerStride int64   `json:"worker_stride,omitempty"`
+	Prefix       []int64 `json:"earlier_runs_of_the_process,omitempty"`
 }
 
 type workerOut struct {
@@ -434,6 +438,22 @@ func realMain(id string, pc propCfg, workDir string) int {
 		if !match && v.Race && !v.SeedOnly {
 			// neither tape reproduces in halting mode: the seed-only form did
 			v.SeedOnly, v.Tape, v.Original = true, nil, nil
+			js, _ = json.MarshalIndent(v, "", " ")
+			os.WriteFile(path, js, 0o644)
+			out, match = replayOnce(bin, id, path, workDir)
+		}
+		if !match && !v.Race && v.WorkerStride > 0 && v.RunIndex > v.WorkerFrom && (v.RunIndex-v.WorkerFrom)/v.WorkerStride <= 20000 {
+			// the run alone does not reproduce: replay it after the runs its worker
+			// process had executed before it (state of the code under test that
+			// outlives a run - a package-level cache, a table filled on demand -
+			// is part of the history). The run itself from its seed: a tape
+			// minimised inside a process in that state means nothing.
+			v.Prefix = nil
+			for i := v.WorkerFrom; i < v.RunIndex; i += v.WorkerStride {
+				v.Prefix = append(v.Prefix, i)
+			}
+			v.SeedOnly, v.Tape, v.Original = true, nil, nil
+			v.Detail += fmt.Sprintf("\n(does not reproduce from its own tape; reproduces after the %d earlier runs of its worker process: the code under test keeps state across runs)", len(v.Prefix))
 			js, _ = json.MarshalIndent(v, "", " ")
 			os.WriteFile(path, js, 0o644)
 			out, match = replayOnce(bin, id, path, workDir)
